@@ -41,6 +41,10 @@ template<int N, class T> static void check(glm::mat<N, N, T> const& M, LD kappa,
 	if (!(e <= (exact ? 0 : 256 * eps * scale * N))) fail("adj" + sfx, cls, ms(M), "det*I", "max abs diff " + str((double)e));
 	// operator/ : (M / M) = I ; (M*v)/M ... v / M = v * inverse(M)
 	count("div" + sfx); LD e3 = maxdiff_I(M / M); if (!(e3 <= tol)) fail("div_mm" + sfx, cls, ms(M), "M/M = I", str((double)e3));
+	// A / M = A * inverse(M) and A /= M likewise, with a second matrix A that does not commute with M (a shear of the identity plus M's transpose)
+	{ glm::mat<N, N, T> A = glm::transpose(M); for (int c = 0; c < N; ++c) for (int r = 0; r < N; ++r) A[c][r] += (T)((c + 2 * r) % 3); auto Q = A / M; auto Qc = A; Qc /= M; LM<N> LA = toL(A); LD ed = 0, ec = 0, na = fro(LA) * fro(Li);
+	  for (int c = 0; c < N; ++c) for (int r = 0; r < N; ++r) { LD w = 0; for (int k = 0; k < N; ++k) w += LA.a[k][r] * Li.a[c][k]; ed = std::max(ed, fabsl((LD)Q[c][r] - w)); ec = std::max(ec, fabsl((LD)Qc[c][r] - w)); }
+	  LD td = exact ? 0 : 64 * eps * kappa * (1 + na); if (!(ed <= td) || !(ec <= td)) fail("div_mm" + sfx, cls + ":A / M with A != M", ms(M), "A * inverse(M)", "max abs diff " + str((double)ed) + " (operator/) " + str((double)ec) + " (operator/=)"); }
 	glm::vec<N, T> v; for (int i = 0; i < N; ++i) v[i] = (T)(i + 1); auto q1 = M / v; auto q2 = Inv * v; auto q3 = v / M; auto q4 = v * Inv;
 	for (int i = 0; i < N; ++i) if (q1[i] != q2[i] || q3[i] != q4[i]) fail("div_mv" + sfx, cls, ms(M), "inverse(M)*v", "differs");
 }
